@@ -1,8 +1,18 @@
 """C10 — DFU cache partitions are well-formed, aligned and content-preserving (contracts)."""
 from pyvc.contract import Contract
-from pyvc.types import Int, Bool, Bytes, Str, Obj, SeqStr
+from pyvc.types import Int, Bool, Bytes, Str, Obj, SeqStr, PathStr, ListT, DictT, Const
 
+PROPERTY = "C10"
+LEVEL = "proof"
 F = "suit_generator/cmd_cache_create.py"
+
+# Representation invariant of CachePartition used as pre- and postcondition of every mutator:
+#   eb_size >= 1;  first_slot <=> no data yet <=> no URIs yet;  the end of the data is block-aligned
+#   (so every slot after the first begins at a multiple of the erase-block size).
+CP = Obj(F, "CachePartition", first_slot=Bool(), cache_data=Bytes(), eb_size=Int(), uris=SeqStr())
+INV = ("self.eb_size >= 1 and self.first_slot == (len(self.cache_data) == 0) and self.first_slot == (len(self.uris) == 0) "
+       "and len(self.cache_data) % self.eb_size == 0")
+L_DIV = "L-div: x == k*b and b > 0 implies x % b == 0 (divisibility witnesses; elementary arithmetic, checked in Lean in the thorough tier)"
 
 # ------------------------------------------------------------------------------------------------
 c = Contract(F, "CachePartition.add_padding", ["C10"])
@@ -13,14 +23,231 @@ c.let("q", "len(data) // self.eb_size")
 c.returns("prefix", "result[:len(data)] == data")
 # alignment: exists k. len(result) == k * eb.  The witness is searched among q .. q+3 (q = floor(len/eb)):
 # any padding strategy that adds fewer than three blocks verifies, so harmless strategy changes stay silent.
-c.returns("aligned",
-          "len(result) == q * self.eb_size or len(result) == (q + 1) * self.eb_size "
-          "or len(result) == (q + 2) * self.eb_size or len(result) == (q + 3) * self.eb_size",
-          native="len(result) % self.eb_size == 0")
+c.returns("aligned", "len(result) % self.eb_size == 0",
+          via="len(result) == q * self.eb_size or len(result) == (q + 1) * self.eb_size "
+              "or len(result) == (q + 2) * self.eb_size or len(result) == (q + 3) * self.eb_size")
 c.returns("padding", "len(result) == len(data) or pad_entry_ok(result[len(data):])")
-c.returns("minimal", "len(result) - len(data) < 2 * self.eb_size + 2")
-c.raises("ValueError")
+c.returns("bounded_growth", "len(result) - len(data) <= 2 * self.eb_size + 1")
+c.raises("ValueError", when="self.eb_size >= 0xFFFF", must=False)
 c.result(Bytes())
 
-PROPERTY = "C10"
-LEVEL = "proof"
+# ------------------------------------------------------------------------------------------------
+c = Contract(F, "CachePartition.add_cache_slot", ["C10"])
+c.param("self", CP)
+c.param("uri", Str())
+c.param("data", Bytes())
+c.requires("inv", INV)
+c.requires("len32", "len(data) < 2**32")  # the format encodes the payload length in exactly four bytes
+c.let("k0", "len(self.cache_data) // self.eb_size")
+c.let("hdr", "(b'\\xbf' if self.first_slot else b'') + ENC(uri) + b'\\x5a' + be(len(data), 4) + data")
+c.let("qs", "len(hdr) // self.eb_size")
+c.returns("extends", "self.cache_data[:len(old(self.cache_data))] == old(self.cache_data)")
+c.returns("slot", "self.cache_data[len(old(self.cache_data)):][:len(hdr)] == hdr")
+c.returns("slot_padding", "len(self.cache_data) == len(old(self.cache_data)) + len(hdr) "
+                          "or pad_entry_ok(self.cache_data[len(old(self.cache_data)) + len(hdr):])")
+c.returns("aligned", "len(self.cache_data) % self.eb_size == 0",
+          via="len(self.cache_data) == (k0 + (len(self.cache_data) - len(old(self.cache_data))) // self.eb_size) * self.eb_size")
+c.returns("uris", "self.uris == old(self.uris) + [uri]")
+c.returns("not_first", "not self.first_slot and self.eb_size == old(self.eb_size)")
+c.raises("ValueError", when="uri in self.uris", label="duplicate",
+         ensures=["self.cache_data == old(self.cache_data) and self.uris == old(self.uris) "
+                  "and self.first_slot == old(self.first_slot) and self.eb_size == old(self.eb_size)"])
+c.raises("ValueError", when="self.eb_size >= 0xFFFF", must=False, label="padding_too_large",
+         modifies=["self.first_slot", "self.uris"])
+c.modifies("self.first_slot", "self.cache_data", "self.uris")
+
+# ------------------------------------------------------------------------------------------------
+c = Contract(F, "CachePartition.close_and_save_cache", ["C10"])
+c.param("self", CP)
+c.param("output_file", PathStr())
+c.returns("file", "FILE(output_file) == old(self.cache_data) + b'\\xff'")
+c.returns("exists", "EXISTS(output_file)")
+c.raises("FileNotFoundError")  # missing output directory
+c.modifies("self.cache_data")
+
+ASSUMPTIONS = [L_DIV]
+
+
+# ================================================================================================
+# B — bounded stand-in: the public entry point `cmd_cache_create.main` on enumerated inputs, the output file walked by
+# the independent CBOR reader (bounded/cborx.py).  Labelled bounded; never counted as proved.
+# ================================================================================================
+def check_cache_file(blob, pairs, eb):
+    """Oracle taken from the property statement. Returns None or a message."""
+    from bounded import cborx
+    if not blob or blob[0] != 0xBF:
+        return "does not start with an indefinite-length map (0xBF)"
+    off, got, first = 1, [], True
+    while True:
+        if off >= len(blob):
+            return "no terminating 0xFF"
+        if blob[off] == 0xFF:
+            off += 1
+            break
+        kstart = off
+        try:
+            k, off = cborx.decode(blob, off)
+            vhead = blob[off]
+            v, off = cborx.decode(blob, off)
+        except Exception as e:  # noqa: BLE001
+            return f"not decodable at offset {off}: {e}"
+        if not isinstance(k, str) or not isinstance(v, bytes):
+            return f"entry at {kstart} is not text -> bytes"
+        if k == "":
+            if any(v):
+                return f"padding entry at {kstart} is not zero-filled"
+        else:
+            if vhead != 0x5A:
+                return f"payload length of {k!r} not in the fixed 4-byte form (head {vhead:#x})"
+            if not first and kstart % eb != 0:
+                return f"slot {k!r} starts at {kstart}, not a multiple of {eb}"
+            got.append((k, v))
+            first = False
+    if off != len(blob):
+        return "bytes after the terminating 0xFF"
+    if got != list(pairs):
+        return f"decoded pairs differ from the supplied ones: {[(k, len(v)) for k, v in got]} vs {[(k, len(v)) for k, v in pairs]}"
+    return None
+
+
+def _run_main(kwargs):
+    import importlib
+    m = importlib.import_module("suit_generator.cmd_cache_create")
+    return m.main(**kwargs)
+
+
+def _payload(n, salt):
+    return bytes((i * 7 + salt) & 0xFF for i in range(n))
+
+
+def run_from_payloads(B, eb, pairs, tag):
+    d = B.fresh_dir("c")
+    inputs = []
+    for i, (uri, data) in enumerate(pairs):
+        p = f"{d}/in{i}.bin"
+        open(p, "wb").write(data)
+        inputs.append(f"{uri},{p}")
+    out = f"{d}/out.cache"
+    case = {"mode": "from_payloads", "eb": eb, "pairs": [[u, len(x), x[:1].hex()] for u, x in pairs]}
+    uris = [u for u, _ in pairs]
+    dup = len(set(uris)) != len(uris)
+    try:
+        _run_main({"cache_create_subcommand": "from_payloads", "eb_size": eb, "input": inputs, "output_file": out})
+    except ValueError as e:
+        if dup:
+            return case, None
+        # padding of more than 0xFFFF bytes is rejected by design for eb >= 0xFFFF
+        if eb >= 0xFFFF and "padding" in str(e):
+            return case, None
+        return case, f"unexpected ValueError: {e}"
+    except Exception as e:  # noqa: BLE001
+        return case, f"unexpected {type(e).__name__}: {e}"
+    if dup:
+        return case, "duplicate URI accepted"
+    return case, check_cache_file(open(out, "rb").read(), pairs, eb)
+
+
+def run_merge(B, eb, groups):
+    d = B.fresh_dir("m")
+    files = []
+    for gi, pairs in enumerate(groups):
+        ins = []
+        for i, (uri, data) in enumerate(pairs):
+            p = f"{d}/g{gi}_{i}.bin"
+            open(p, "wb").write(data)
+            ins.append(f"{uri},{p}")
+        f = f"{d}/g{gi}.cache"
+        _run_main({"cache_create_subcommand": "from_payloads", "eb_size": eb, "input": ins, "output_file": f})
+        files.append(f)
+    out = f"{d}/merged.cache"
+    allpairs = [p for g in groups for p in g]
+    uris = [u for u, _ in allpairs]
+    dup = len(set(uris)) != len(uris)
+    case = {"mode": "merge", "eb": eb, "groups": [[[u, len(x)] for u, x in g] for g in groups]}
+    try:
+        _run_main({"cache_create_subcommand": "merge", "eb_size": eb, "input": files, "output_file": out})
+    except ValueError as e:
+        return case, (None if dup else f"unexpected ValueError: {e}")
+    except Exception as e:  # noqa: BLE001
+        return case, f"unexpected {type(e).__name__}: {e}"
+    if dup:
+        return case, "duplicate URI across merged caches accepted"
+    return case, check_cache_file(open(out, "rb").read(), allpairs, eb)
+
+
+def bounded(ctx):
+    from bounded.harness import Bounded
+    quick = ctx["tier"] == "quick"
+    ebs = list(range(1, 70)) + [96, 128, 255, 256, 512] if quick else list(range(1, 513)) + [1024, 2048, 4096, 8192, 16384, 32768, 65536]
+    B = Bounded(ctx, rule="cmd_cache_create.main on enumerated (eb, slot lengths in every residue class, URI lengths, slot sequences, "
+                          "duplicates at every position, merges); output walked by an independent CBOR reader; a case is non-trivial "
+                          "when it has at least one slot; distinct by (mode, eb, slot shapes)",
+                bound=f"eb in {'1..69 + {96,128,255,256,512}' if quick else '1..512 + 2^k up to 65536'}; slot length residues all (eb<=64) / sampled; "
+                      f"URI lengths 1,22,23,24,255,256; sequences up to 6 slots; merges of up to 4 caches", budget_s=40 if quick else 900)
+    uri_lens = [1, 6, 22, 23, 24, 255, 256]
+    # (1) single and double slots: every residue class of the slot size for eb <= 64, boundary residues beyond
+    for eb in ebs:
+        residues = range(eb) if eb <= 64 else sorted({0, 1, 2, 3, 22, 23, 24, 25, 26, 27, eb // 2, eb - 26, eb - 25, eb - 24, eb - 3, eb - 2, eb - 1} & set(range(eb)))
+        for r in residues:
+            if B.out_of_time():
+                break
+            ul = uri_lens[(eb + r) % len(uri_lens)]
+            uri = "#" + "u" * (ul - 1)
+            hdr = 1 + (1 if ul < 24 else 2 if ul < 256 else 3) + ul + 5
+            n = (r - hdr) % eb + (eb if (eb + r) % 3 == 0 and eb < 4096 else 0)
+            pairs = [(uri, _payload(n, r)), ("#second", _payload((r * 3) % 37, 1))]
+            case, msg = run_from_payloads(B, eb, pairs, "res")
+            B.case(("p", eb, r), sample=case)
+            if msg:
+                B.fail("cache-file-well-formed", case, msg)
+    # (2) sequences of up to 6 slots incl. empty payloads, duplicates at every position
+    for eb in ([1, 2, 8, 16, 25, 26, 27, 64, 256] if quick else [1, 2, 3, 8, 16, 24, 25, 26, 27, 28, 64, 100, 256, 512, 4096]):
+        for n in range(1, 7):
+            pairs = [(f"#s{i}" + "x" * ((i * 5) % 30), _payload((i * 11 + eb) % 70, i)) for i in range(n)]
+            case, msg = run_from_payloads(B, eb, pairs, "seq")
+            B.case(("s", eb, n), sample=None)
+            if msg:
+                B.fail("cache-file-well-formed", case, msg)
+            for i in range(n):
+                for j in range(i + 1, n):
+                    if (i + j + eb) % 3 and n > 3:
+                        continue
+                    dp = list(pairs)
+                    dp[j] = (pairs[i][0], pairs[j][1])
+                    case, msg = run_from_payloads(B, eb, dp, "dup")
+                    B.case(("d", eb, n, i, j))
+                    if msg:
+                        B.fail("duplicate-uri-rejected", case, msg)
+    # (3) merges
+    for eb in ([1, 8, 16, 27, 64] if quick else [1, 2, 8, 16, 25, 26, 27, 64, 256, 1024]):
+        for k in range(1, 5):
+            groups = [[(f"#g{g}_{i}", _payload((g * 13 + i * 7 + eb) % 50, g)) for i in range(1 + (g + k) % 3)] for g in range(k)]
+            case, msg = run_merge(B, eb, groups)
+            B.case(("m", eb, k), sample=case if k == 2 else None)
+            if msg:
+                B.fail("merge-preserves-pairs", case, msg)
+            if k >= 2:
+                # duplicate across inputs (first slot of first cache repeated as last slot of last cache, and others)
+                for (ga, ia), (gb, ib) in (((0, 0), (k - 1, len(groups[k - 1]) - 1)), ((0, len(groups[0]) - 1), (1, 0))):
+                    g2 = [list(g) for g in groups]
+                    g2[gb][ib] = (groups[ga][ia][0], g2[gb][ib][1])
+                    case, msg = run_merge(B, eb, g2)
+                    B.case(("md", eb, k, ga, ia, gb, ib))
+                    if msg:
+                        B.fail("duplicate-uri-rejected", case, msg)
+    return B.done()
+
+
+def replay_case(case):
+    from bounded.harness import Bounded
+    B = Bounded({"tier": "quick", "seed": 0}, "", "")
+    try:
+        if case["mode"] == "from_payloads":
+            pairs = [(u, _payload(n, int(h, 16) if h else 0) if False else bytes.fromhex(h) * 0 + _payload(n, 0)) for u, n, h in case["pairs"]]
+            _, msg = run_from_payloads(B, case["eb"], pairs, "replay")
+        else:
+            groups = [[(u, _payload(n, 0)) for u, n in g] for g in case["groups"]]
+            _, msg = run_merge(B, case["eb"], groups)
+        return msg is None, msg
+    finally:
+        B.done()
